@@ -445,6 +445,60 @@ pub fn run(ctx: &mut Ctx) {
             ("decode_u32_items<()>", vec![0, 0, 0, 1, 7]),
             ("decode_fixlen_items<()>", vec![1, 2, 3, 4]),
         ];
+        // The same for item types that are NOT zero-sized in memory but whose encoding is empty under
+        // some decoding parameters: Prio3 public shares / verifier messages of a type without joint
+        // randomness, Poplar1's round-two verifier message.
+        {
+            use prio::vdaf::poplar1::{Poplar1, Poplar1AggregationParam, Poplar1VerifierMessage};
+            use prio::vdaf::prio3::{Prio3, Prio3PublicShare, Prio3VerifierMessage};
+            use prio::vdaf::{Aggregator, Client, VerifyTransition};
+            type Job = Box<dyn FnOnce() -> Result<usize, String> + Send>;
+            let mut jobs: Vec<(String, Vec<u8>, Job)> = vec![];
+            let inputs: Vec<Vec<u8>> = vec![vec![1, 0], vec![3, 1, 2, 3], vec![255], vec![0, 2, 9, 9], vec![0, 0, 0, 1, 7], vec![0, 0, 1, 0, 7, 7, 7]];
+            let count = Prio3::new_count(2).unwrap();
+            let (cps, cshares) = count.shard(b"c08", &true, &[7u8; 16]).unwrap();
+            let (cstate, _) = count.verify_init(&[3u8; 32], b"c08", 0, &(), &[7u8; 16], &cps, &cshares[0]).unwrap();
+            let pop = Poplar1::new_turboshake128(4);
+            let pin = prio::idpf::IdpfInput::from_bools(&[true, false, true, true]);
+            let (pps, pshares) = pop.shard(b"c08", &pin, &[9u8; 16]).unwrap();
+            let pparam = Poplar1AggregationParam::try_from_prefixes(vec![prio::idpf::IdpfInput::from_bools(&[true, false])]).unwrap();
+            let mut pst = vec![];
+            let mut psh = vec![];
+            for j in 0..2 {
+                let (st, sh) = pop.verify_init(&[5u8; 32], b"c08", j, &pparam, &[9u8; 16], &pps, &pshares[j]).unwrap();
+                pst.push(st);
+                psh.push(sh);
+            }
+            let pmsg = pop.verifier_shares_to_message(b"c08", &pparam, psh).unwrap();
+            let round_two_state = match pop.verify_next(b"c08", pst.remove(0), pmsg).unwrap() {
+                VerifyTransition::Continue(st, _) => Some(st),
+                _ => None,
+            };
+            for b in &inputs {
+                let (c1, c2, c3) = (count.clone(), cstate.clone(), round_two_state.clone());
+                let (b1, b2, b3, b4) = (b.clone(), b.clone(), b.clone(), b.clone());
+                let c4 = count.clone();
+                jobs.push(("decode_u8_items<Prio3PublicShare(no joint rand)>".into(), b.clone(), Box::new(move || decode_u8_items::<_, Prio3PublicShare<32>>(&c1, &mut Cursor::new(&b1[..])).map(|v| v.len()).map_err(|e| e.to_string()))));
+                jobs.push(("decode_u16_items<Prio3VerifierMessage(no joint rand)>".into(), b.clone(), Box::new(move || decode_u16_items::<_, Prio3VerifierMessage<32>>(&c2, &mut Cursor::new(&b2[..])).map(|v| v.len()).map_err(|e| e.to_string()))));
+                jobs.push(("decode_u32_items<Prio3PublicShare(no joint rand)>".into(), b.clone(), Box::new(move || decode_u32_items::<_, Prio3PublicShare<32>>(&c4, &mut Cursor::new(&b4[..])).map(|v| v.len()).map_err(|e| e.to_string()))));
+                if let Some(st) = c3 {
+                    jobs.push(("decode_u8_items<Poplar1VerifierMessage(round two)>".into(), b.clone(), Box::new(move || decode_u8_items::<_, Poplar1VerifierMessage>(&st, &mut Cursor::new(&b3[..])).map(|v| v.len()).map_err(|e| e.to_string()))));
+                }
+            }
+            for (name, bytes, job) in jobs {
+                ctx.trace(|| format!("decode|{name}|empty-encoding-items input={}", hex(&bytes)));
+                let (tx, rx) = std::sync::mpsc::channel();
+                std::thread::spawn(move || {
+                    let _ = tx.send(job());
+                });
+                ctx.eval();
+                match rx.recv_timeout(std::time::Duration::from_secs(20)) {
+                    Ok(_) => ctx.count("empty_encoding_item_decodes_terminated"),
+                    Err(_) => ctx.violation(format!("hang|decode|{name}|empty-encoding-items"), "decoding a vector of items whose encoding is empty did not terminate within 20 s (input of at most 7 bytes)",
+                        json!({"decoder": name, "input": hex(&bytes)})),
+                }
+            }
+        }
         for (name, bytes) in cases {
             ctx.trace(|| format!("decode|{name}|nonzero-length input={}", hex(&bytes)));
             let (tx, rx) = std::sync::mpsc::channel();
